@@ -236,7 +236,7 @@ Definition sexp_optype (a : bytes) : option optype :=
 Definition sexp_eop (x : sexp) : option eop :=
   match x with
   | Atom a => if atom_is a "r" then Some OpReset else if atom_is a "d" then Some OpLastDebugErr else None
-  | SList [Atom a; o] => if atom_is a "p" then option_map OpProcess (sexp_obj o) else None
+  | SList [Atom a; o] => if atom_is a "p" || atom_is a "q" then option_map OpProcess (sexp_obj o) else None
   | _ => None
   end.
 
